@@ -2909,7 +2909,7 @@ def t_cpp_word_split(facts, res, tier):
         raise AnchorMissing("process(): the binding of `directive` (first word of the line) not found")
     n = 0
     for x in walk(fn["body"]):
-        if not (x.get("k") == "mcall" and x["method"] == "splitn" and len(x["args"]) == 2):
+        if not (x.get("k") == "mcall" and ((x["method"] == "splitn" and len(x["args"]) == 2) or (x["method"] in ("split_once", "rsplit_once") and len(x["args"]) == 1))):
             continue
         r = x["recv"]
         root = r
@@ -2918,7 +2918,7 @@ def t_cpp_word_split(facts, res, tier):
         if not (isinstance(root, dict) and root.get("k") == "path" and root["segs"] == ["substr"]):
             continue
         n += 1
-        sep = expr_text(x["args"][1]).replace(" ", "")
+        sep = expr_text(x["args"][-1]).replace(" ", "")
         key = "T-CPP-WORD-SPLIT:process:%d" % n
         res.inst(key, True, {"where": facts.where(fn, x), "separator": sep, "word_separator": word})
         if sep != word:
@@ -3363,3 +3363,261 @@ def t_cmp16_sign(facts, res, tier):
                 res.fail(key, facts.where(fn, x), "generate_condition_16bits gives the high byte of the compared value the signedness `%s` whatever the operand is: an unsigned 16-bit value with bit 15 set is taken for negative" % expr_text(a))
     if n == 0:
         raise AnchorMissing("generate_condition_16bits: no ExprType::A(..) built")
+
+
+@rule("T-GRAMMAR-REPARSE", floor=20,
+      text="pest does not memoise: when the first alternative of a choice fails, everything it had parsed is parsed again by the next one.  No "
+           "choice of the grammar has two alternatives that begin with the same items up to and including a reference to a rule through which the "
+           "choice itself can be reached again (`statement`, `expr`): each level of nesting would then parse its inner construct twice, and n "
+           "nested else-less ifs cost 2^n - 48 of them (350 bytes of source) never finish.  An optional tail (`(\"else\" ~ statement)?`) is the "
+           "form that parses the common part once")
+def t_grammar_reparse(facts, res, tier):
+    rules = facts.grammar_rules()
+
+    def refs(e, out):
+        if isinstance(e, dict):
+            if e.get("k") == "ident":
+                out.add(e["v"])
+            for v in e.values():
+                refs(v, out)
+        return out
+    direct = {name: refs(r["expr"], set()) for name, r in rules.items()}
+    reach = {}
+    for name in rules:
+        seen = set()
+        stack = list(direct[name])
+        while stack:
+            x = stack.pop()
+            if x in seen or x not in rules:
+                continue
+            seen.add(x)
+            stack.extend(direct[x])
+        reach[name] = seen
+
+    def flat_seq(e):
+        if isinstance(e, dict) and e.get("k") == "seq":
+            return flat_seq(e["a"]) + flat_seq(e["b"])
+        return [e]
+
+    def alts(e):
+        if isinstance(e, dict) and e.get("k") == "choice":
+            return alts(e["a"]) + alts(e["b"])
+        return [e]
+    n = 0
+
+    def visit(rname, e, top=True):
+        nonlocal n
+        if not isinstance(e, dict):
+            return
+        if e.get("k") == "choice" and top:
+            al = [flat_seq(a) for a in alts(e)]
+            n += 1
+            key = "T-GRAMMAR-REPARSE:%s" % rname
+            worst = None
+            for i in range(len(al)):
+                for j in range(i + 1, len(al)):
+                    k = 0
+                    while k < len(al[i]) and k < len(al[j]) and json.dumps(al[i][k], sort_keys=True) == json.dumps(al[j][k], sort_keys=True):
+                        k += 1
+                    common = al[i][:k]
+                    rec = [x["v"] for x in common for x in [x] if isinstance(x, dict) and x.get("k") == "ident" and x["v"] in rules and rname in reach.get(x["v"], set()) | ({x["v"]} if x["v"] == rname else set())]
+                    if rec and worst is None:
+                        worst = (i, j, k, rec)
+            res.inst(key, True, {"rule": rname, "alternatives": len(al), "reparsed_recursive_prefix": worst[3] if worst else None})
+            if worst:
+                res.fail(key, "src/cc6502.pest:%s" % rules[rname].get("line"), "rule `%s`: alternatives %d and %d begin with the same %d item(s), among them %s through which `%s` is reached again: when the first alternative fails the nested construct is parsed a second time, at every level of nesting" % (
+                    rname, worst[0] + 1, worst[1] + 1, worst[2], " / ".join("`%s`" % r for r in worst[3]), rname))
+            for a in alts(e):
+                visit(rname, a, True)
+            return
+        for k2, v in e.items():
+            if isinstance(v, dict):
+                visit(rname, v, True)
+
+    import json
+    for rname, r in rules.items():
+        visit(rname, r["expr"])
+    if n == 0:
+        raise AnchorMissing("the grammar has no choice")
+
+
+TRANSFER_INVERSE = {"TAX": "TXA", "TXA": "TAX", "TAY": "TYA", "TYA": "TAY"}
+
+
+@rule("T-TRANSFER-PAIRS", floor=4,
+      text="optimize() deletes the second of two adjacent register transfers when it copies the value back where it has just come from: TAX/TXA, "
+           "TXA/TAX, TAY/TYA, TYA/TAY.  Whether the pairs are spelled as conditions (`i1.mnemonic == TAX && i2.mnemonic == TXA`) or come from a "
+           "table (`match t { TAX => Some(TXA), .. }`), every pair is one of these four: `TYA` followed by `TAX` is `X = Y`, not a transfer back, and "
+           "deleting the TAX leaves X as it was")
+def t_transfer_pairs(facts, res, tier):
+    n = 0
+    for fn in facts.fns:
+        if not fn["file"].endswith("assemble.rs") or fn.get("test"):
+            continue
+        # (a) pair conditions
+        for x in walk(fn["body"]):
+            if x.get("k") != "if":
+                continue
+            if not any(y.get("k") == "assign" and expr_text(y["l"]).replace(" ", "") in ("remove_second", "remove_both", "remove_first") and expr_text(y["r"]).strip() == "true" for y in walk(x["then"])):
+                continue
+            c = expr_text(x["cond"]).replace(" ", "")
+            ms = re.findall(r"(\w+)\.mnemonic==AsmMnemonic::(TAX|TXA|TAY|TYA)\b", c)
+            if len(ms) == 2 and ms[0][0] != ms[1][0] and "||" not in c:
+                first, second = sorted(ms, key=lambda t: t[0])
+                n += 1
+                key = "T-TRANSFER-PAIRS:%s:%s+%s" % (fn["name"], first[1], second[1])
+                res.inst(key, True, {"pair": [first[1], second[1]]})
+                if TRANSFER_INVERSE[first[1]] != second[1]:
+                    res.fail(key, facts.where(fn, x), "%s deletes a transfer of the pair %s / %s, which does not bring the value back where it came from" % (fn["name"], first[1], second[1]))
+        # (b) tables
+        for m in walk(fn["body"]):
+            if m.get("k") != "match":
+                continue
+            table = {}
+            for arm in m["arms"]:
+                pats = arm["pat"]["alts"] if arm["pat"].get("k") == "or" else [arm["pat"]]
+                b = arm["body"]
+                if isinstance(b, dict) and b.get("k") == "call" and expr_text(b["func"]).replace(" ", "") in ("Some", "Ok") and len(b["args"]) == 1:
+                    b = b["args"][0]
+                tgt = b["segs"][-1] if isinstance(b, dict) and b.get("k") == "path" and b["segs"][-1] in TRANSFER_INVERSE else None
+                for p in pats:
+                    if p.get("k") == "path" and p["segs"][-1] in TRANSFER_INVERSE and tgt:
+                        table[p["segs"][-1]] = tgt
+            if len(table) >= 2:
+                n += 1
+                key = "T-TRANSFER-PAIRS:%s:table" % fn["name"]
+                res.inst(key, True, {"table": table})
+                for k0, v0 in sorted(table.items()):
+                    res.inst("%s:%s+%s" % (key, k0, v0), True, {"pair": [k0, v0]})
+                bad = {k: v for k, v in table.items() if TRANSFER_INVERSE[k] != v and k != v}
+                if bad:
+                    res.fail(key, facts.where(fn, m), "%s holds a table of register transfers in which %s: not the transfer that brings the value back" % (fn["name"], ", ".join("%s => %s" % kv for kv in sorted(bad.items()))))
+    if n == 0:
+        raise AnchorMissing("assemble.rs: no pair of register transfers found")
+
+
+@rule("T-DIV-ZERO-FIRST", floor=1,
+      text="generate_arithm rejects a constant division by zero (`return Err(.. \"Division by zero\" ..)` under a test of the divisor against 0).  No "
+           "normal return that a division can take comes before that test: a shortcut placed ahead of it (`0 / x` is 0, `x / 1` is x) answers for "
+           "`0 / 0` too, and the statement compiles where the same expression in an initialiser is refused")
+def t_div_zero_first(facts, res, tier):
+    from scopes import scoped
+    fn = facts.fn("generate_arithm", genmodel.GEN_QUAL)
+    guard = None
+    for x in walk(fn["body"]):
+        if x.get("k") == "if" and re.search(r"==0\)?$|^\(?0==", expr_text(x["cond"]).replace(" ", "")) and "Divisionbyzero" in expr_text(x["then"]).replace(" ", ""):
+            guard = x
+            break
+    if guard is None:
+        raise AnchorMissing("generate_arithm: the division-by-zero test was not found")
+    gline = int(str(guard.get("loc", "0:0")).split(":")[0])
+    n = 0
+    for node, env, doms in scoped(fn):
+        if node.get("k") != "return":
+            continue
+        t = expr_text(node.get("e") or {}).replace(" ", "")
+        if t.startswith("Err("):
+            continue
+        line = int(str(node.get("loc", "0:0")).split(":")[0])
+        if line >= gline:
+            continue
+        # can `op` be a division here?
+        may_div = True
+        for d in doms:
+            if d[0] == "arm" and expr_text(d[1]).replace(" ", "").lstrip("*&") == "op":
+                may_div = "Operation::Div" in pat_text(d[2]).replace(" ", "") or pat_text(d[2]).strip() == "_"
+            if d[0] == "arm" and d[1].get("k") == "letcond":
+                pass
+        n += 1
+        key = "T-DIV-ZERO-FIRST:generate_arithm:%s" % ("may-divide" if may_div else "other-operation")
+        res.inst(key, True, {"return": t[:50], "line": line, "division_possible": may_div})
+        if may_div:
+            res.fail("T-DIV-ZERO-FIRST:generate_arithm", facts.where(fn, node), "generate_arithm returns `%s` before the test of the divisor against zero, on a path a division can take: a constant `0 / 0` (or `x / 0` caught by the shortcut) is folded instead of being refused" % t[:60])
+    res.inst("T-DIV-ZERO-FIRST:generate_arithm:guard", True, {"line": gline, "normal_returns_before_it": n})
+
+
+TMP_RELEASE_BOUNDARIES = {
+    # function (and arm): why cctmp is free there whatever it held
+    ("generate_statement", None): "a new statement begins: no operand of the previous one is alive",
+    ("generate_return", None): "the value returned has been moved to the accumulator; nothing of the statement remains",
+    ("generate_expr", "Operation::Comma"): "the left operand of a comma is discarded as a whole",
+    ("generate_condition_16bits", None): "the function parked the low byte in cctmp itself (an operand ExprType::Tmp(false) of its own; verified below) and has compared it",
+}
+
+
+@rule("T-TMP-RELEASE", floor=15,
+      text="`tmp_in_use` says that cctmp holds something alive: an operand (ExprType::Tmp) or the program's Y parked while Y serves as an index.  It "
+           "is lowered only by the code that has just consumed that content - inside an arm that matched the operand as `ExprType::Tmp(..)`, or "
+           "under `self.saved_y` where the parked Y is restored - or at a boundary where nothing of the statement survives (tabled, with reasons).  "
+           "Lowered anywhere else (after the slow path of `++v` on split-port RAM, say) it frees cctmp while it still holds the parked Y: the next "
+           "operand that needs cctmp overwrites it and `LDY cctmp` restores garbage")
+def t_tmp_release(facts, res, tier):
+    from scopes import scoped
+    n = 0
+    for fn in genmodel.gen_fns(facts):
+        for node, env, doms in scoped(fn):
+            if not (node.get("k") == "assign" and expr_text(node["l"]).replace(" ", "") == "self.tmp_in_use" and expr_text(node["r"]).strip() == "false"):
+                continue
+            n += 1
+            arms = [pat_text(d[2]).replace(" ", "") for d in doms if d[0] == "arm"]
+            conds = [expr_text(d[1]).replace(" ", "").strip("()") for d in doms if d[0] == "cond" and d[2]]
+            how = None
+            if any(a.startswith("ExprType::Tmp(") for a in arms):
+                how = "the operand consumed is the temporary"
+            elif "self.saved_y" in conds:
+                how = "the parked Y is restored"
+            else:
+                for (f0, a0), why in TMP_RELEASE_BOUNDARIES.items():
+                    if fn["name"] == f0 and (a0 is None or any(a0 in a for a in arms)):
+                        how = "boundary: " + why
+                        if f0 == "generate_condition_16bits" and "ExprType::Tmp(false)" not in expr_text(fn["body"]).replace(" ", ""):
+                            how = None
+            key = "T-TMP-RELEASE:%s:%s" % (fn["name"], (arms[-1][:30] if arms else "body"))
+            res.inst(key, True, {"function": fn["name"], "admitted_as": how})
+            if how is None:
+                res.fail(key, facts.where(fn, node), "%s lowers `tmp_in_use` where it has not consumed the temporary (arms %s, conditions %s): cctmp may still hold the program's Y, parked there by an indexed operand of the same statement" % (fn["name"], arms[-2:] or "none", conds[-2:] or "none"))
+    if n == 0:
+        raise AnchorMissing("no `tmp_in_use = false` found")
+
+
+@rule("T-POS-NAME", floor=2,
+      text="compile.rs walks the parts of a declaration in a loop (`for pair in pairs { let start = ..; match pair.as_rule() { .. } }`).  An error raised "
+           "while one part is handled, whose message names something read from an earlier part (`Function {name} already defined`, raised at the "
+           "body), is located where that earlier part stood - a position saved in the arm that read it - not at the part at hand (`start`): the "
+           "body's `{` may be lines below the name")
+def t_pos_name(facts, res, tier):
+    n = 0
+    for fn in facts.fns:
+        if not fn["file"].endswith("/compile.rs") or fn.get("test"):
+            continue
+        for lp in walk(fn["body"]):
+            if lp.get("k") != "for":
+                continue
+            body = lp["body"]
+            m = next((s for s in body.get("stmts", []) if s.get("k") == "match" and expr_text(s["e"]).replace(" ", "").endswith(".as_rule()")), None)
+            if m is None:
+                continue
+            iterpos = {s["pat"]["name"] for s in body.get("stmts", []) if s.get("k") == "let" and s.get("pat", {}).get("k") == "ident"}
+            assigned = {}
+            for a in m["arms"]:
+                for x in walk(a["body"]):
+                    if x.get("k") == "assign" and x["l"].get("k") == "path" and len(x["l"]["segs"]) == 1:
+                        assigned.setdefault(x["l"]["segs"][0], set()).add(id(a))
+            for a in m["arms"]:
+                for x in walk(a["body"]):
+                    if not (x.get("k") == "mcall" and x["method"] in ("syntax_error", "compiler_error") and len(x["args"]) >= 2):
+                        continue
+                    txt = expr_text(x["args"][0])
+                    pos = x["args"][1]
+                    elsewhere = [nm for nm, arms in assigned.items() if re.search(r"\b%s\b" % re.escape(nm), txt) and id(a) not in arms]
+                    if not elsewhere:
+                        continue
+                    n += 1
+                    key = "T-POS-NAME:%s:%s" % (fn["name"], re.sub(r"[^A-Za-z ]", "", txt)[:40].strip().replace(" ", "-"))
+                    roots = {y["segs"][0] for y in walk(pos) if y.get("k") == "path" and len(y["segs"]) == 1}
+                    saved = [r for r in roots if r in assigned and any(assigned[r] & assigned[nm] for nm in elsewhere)]
+                    res.inst(key, True, {"function": fn["name"], "names": elsewhere, "position": expr_text(pos)[:40], "saved_with_the_name": bool(saved)})
+                    if roots & iterpos and not saved:
+                        res.fail(key, facts.where(fn, x), "%s reports `%s` - about `%s`, read from another part of the declaration - at `%s`, the part being handled now" % (fn["name"], txt[:50], elsewhere[0], expr_text(pos)[:30]))
+    if n == 0:
+        raise AnchorMissing("compile.rs: no error naming something read from an earlier part of a declaration")
